@@ -79,6 +79,13 @@ def gen_function(ctx, c, case=None):
     except RecursionError as e:
         rep.status = "unsupported"
         rep.detail = f"RecursionError: {e}"
+    except (z3.Z3Exception, KeyError, AttributeError, TypeError, IndexError) as e:
+        # a contract clause no longer fits the shape of the values the code produces (e.g. an int where the
+        # contract speaks of a float): the function cannot be brought under its contract on this tree
+        import traceback
+        tb = traceback.extract_tb(e.__traceback__)[-1]
+        rep.status = "unsupported"
+        rep.detail = f"contract does not fit the code's values: {type(e).__name__}: {e} ({os.path.basename(tb.filename)}:{tb.lineno})"
     return rep
 
 
@@ -261,7 +268,7 @@ def run_check(prop, tier, seed, args, t0):
             continue
         cases = c.split_cases or [None]
         for case in cases:
-            rep = gen_function(ctx, c, case)
+            rep = gen_function(getattr(c, "ctx", None) or ctx, c, case)
             reports.append(rep)
             obls.extend(rep.obls)
     for lem in plan.lemmas:
@@ -321,9 +328,10 @@ def run_check(prop, tier, seed, args, t0):
         if rep.status != "ok":
             lost = [g for g in ledger_set if g.startswith(rep.key + "/") or g.startswith(rep.key + "{")]
             if lost:
-                violations.append(no_input_violation(prop, f"{rep.key}/<generation>", rep.detail,
-                                                     f"{len(lost)} obligations discharged on the baseline can no "
-                                                     f"longer be generated: {rep.detail}"))
+                note = f"{len(lost)} obligations discharged on the baseline can no longer be generated: {rep.detail}"
+                u = {"class": "undecided", "obligation": f"{rep.key}/<generation>", "tried": [],
+                     "payload": {"property": prop, "obligation": {"name": f"{rep.key}/<generation>"}, "verifier_output": rep.detail, "note": note}}
+                violations.append(try_native_search(plan, prop, u, known))
             else:
                 errors.append(f"{rep.key}: {rep.detail}")
     # undecided obligations that were discharged on the baseline -> violation without input
@@ -528,7 +536,7 @@ def handle_refutation(plan, prop, ob, r, known):
     job = None
     res = None
     if c.replay is not None:
-        job = c.replay(plan, c, inputs, ob)
+        job = c.replay(getattr(c, "home", plan), c, inputs, ob)
     elif not any(callable(e) for e in list(c.ensures) + list(c.raises.values()) + list(c.requires)) and c.entry is None:
         job = default_job(plan, c, inputs)
     if job is not None:
@@ -551,9 +559,9 @@ def try_native_search(plan, prop, u, known=(), refuted=False):
     gname = u["obligation"]
     payload = u.get("payload") or {"property": prop, "obligation": {"name": gname}, "solver": {"tried": u.get("tried")}}
     fnkey = gname.split("/")[0].split("{")[0]
-    c = plan.ctx.contracts.get(fnkey)
+    c = plan.ctx.contracts.get(fnkey) or next((t for t in plan.targets if t.key == fnkey), None)
     if c is not None and c.search is not None:
-        job = c.search(plan, c)
+        job = c.search(getattr(c, "home", plan), c)
         res = native_call(job, timeout=600)
         payload["native_search"] = {"job": {k: v for k, v in job.items() if k != "inputs"}, "result": res}
         if res.get("violated"):
@@ -569,6 +577,9 @@ def try_native_search(plan, prop, u, known=(), refuted=False):
     if k:
         p = write_replay(prop, gname, payload)
         return {"class": "known", "what": f"{k['id']}: {k['what']} [{gname}]", "replay": p}
+    if gname.endswith("/<generation>"):
+        p = write_replay(prop, gname, payload)
+        return {"class": "nofail", "obligation": gname, "replay": p}
     if lkey(gname) in {lkey(g) for g in ledger.get("discharged", [])}:
         payload["note"] = "obligation was discharged on the baseline tree and now fails; no failing input found"
         p = write_replay(prop, gname, payload)
